@@ -5,7 +5,8 @@
 From Coq Require Import List ZArith Bool.
 From V Require Import Gen.Params RunLoop.Model RunLoop.Proofs.
 From V Require ConnIDs.Routing ConnIDs.ProofsRouting.
-From V Require RunLoop.Run RunLoop.SimRun RunLoop.ProofsSim.
+From V Require RunLoop.Run RunLoop.SimRun RunLoop.ProofsSim RunLoop.ProofsConn.
+From V Require ConnIDs.Model ConnIDs.GenRoute ConnIDs.ProofsGenRoute.
 From V Require FrameSorter.Model RecvStream.Model RecvStream.Spec RunLoop.ProofsStreams.
 Import ListNotations.
 Open Scope Z_scope.
@@ -385,18 +386,55 @@ Proof.
 Qed.
 Print Assumptions C17_keepalive_prevents_idle.
 
-(** keep-alive over ALL histories (any interleaving of receive / send / wake-up / block-mode / parameter events, no
-    close request): as long as every wake-up comes before lastPacketReceived + idleTimeout — the answers to the PINGs
-    keep arriving within the idle period — no timeout is ever declared; a PING answered within
-    idleTimeout - interval of its sending does arrive in that time; and the histories built from keep-alive rounds
-    are such histories. *)
-Theorem C17_keepalive_history :
-  (forall l s0, hsComplete s0 = true -> closeErr s0 = None -> no_close_requests l -> wakes_in_time s0 l ->
-     closeErr (run s0 l) = None /\ hsComplete (run s0 l) = true) /\
-  (forall lr interval idle r, r - (lr + interval) < idle - interval -> r < lr + idle) /\
-  (forall rs s, ka_state s -> rounds_ok s rs -> closeErr (run_rounds s rs) = None /\ ka_state (run_rounds s rs)).
-Proof. split; [exact no_idle_while_answered|]. split; [exact answer_in_time | exact keepalive_prevents_idle]. Qed.
+(** over ALL histories (any interleaving of receive / send / wake-up / block-mode / parameter events, no close request):
+    as long as every wake-up comes before lastPacketReceived + idleTimeout no timeout is ever declared. This is the
+    history form of "not early" and does not mention keep-alive by itself; keep-alive enters through
+    [C17_keepalive_history] below: the histories built from keep-alive rounds — a PING queued at the armed deadline, answered in
+    time — never reach the idle branch. *)
+Theorem C17_no_timeout_while_packets_arrive : forall l s0,
+  hsComplete s0 = true -> closeErr s0 = None -> no_close_requests l -> wakes_in_time s0 l ->
+  closeErr (run s0 l) = None /\ hsComplete (run s0 l) = true.
+Proof. exact no_idle_while_answered. Qed.
+Print Assumptions C17_no_timeout_while_packets_arrive.
+
+(** keep-alive rounds as event histories: in a state with keep-alive on and block mode none, each round is the history
+    [wake-up at lastReceived + max(keepAliveInterval, 1.5 PTO): the PING is queued; the PING is sent; any number of further
+    wake-ups; the answer] with the answer within max(idleTimeout, 3 PTO) - max(keepAliveInterval, 1.5 PTO) of the PING (the
+    effective values for the round's PTO: on a path with a large PTO the idle period is 3 PTO). For every list of such
+    rounds: the first wake-up of each round takes the keep-alive branch, no close error is ever recorded, and the state after
+    the rounds is again a keep-alive state. *)
+Theorem C17_keepalive_history : forall rs s, ka_state s -> rounds_ok s rs ->
+  closeErr (run_rounds s rs) = None /\ ka_state (run_rounds s rs) /\
+  (forall r rs', rs = r :: rs' -> decide s (lastRecv s + Z.max (kaInterval s) (rd_pto r * 3 / 2)) (rd_pto r) = DKeepAlive).
+Proof.
+  intros rs s K H. destruct (keepalive_prevents_idle rs s K H) as [A B]. split; [exact A|]. split; [exact B|].
+  intros r rs' E. subst rs. destruct H as [Hr _]. exact (rounds_ping_each s r K Hr).
+Qed.
 Print Assumptions C17_keepalive_history.
+
+(** non-vacuity on a path with a large PTO (8000): the effective keep-alive interval is 12000, above idleTimeout 10000, the
+    effective idle period 24000; a round whose answer comes 5000 after the PING is accepted *)
+Example C17_keepalive_round_large_pto :
+  let s := step (step (init {| c_client := true; c_keepAlivePeriod := 4000; c_maxIdleTimeout := 10000; c_hsIdleTimeout := 5000; c_ownAdvIdle := 0 |} 1000)
+                      (EvHsComplete 30000 30000)) (EvRecv 2000) in
+  let rs := [ {| rd_pto := 8000; rd_wakes := [(15000, 8000)]; rd_recv := 19000 |} ] in
+  ka_state s /\ rounds_ok s rs /\ kaEff s 8000 = 12000 /\ idleEff s 8000 = 24000 /\ closeErr (run_rounds s rs) = None.
+Proof.
+  cbv zeta. split; [unfold ka_state; vm_compute; repeat split; congruence|].
+  split; [cbn [rounds_ok]; split; [|exact I]; unfold round_ok; vm_compute; repeat split; try congruence; repeat constructor; cbn; congruence|].
+  repeat split; vm_compute; reflexivity.
+Qed.
+Print Assumptions C17_keepalive_round_large_pto.
+
+(** the keep-alive branch precedes the timeout branches: when a PING is due and the idle deadline has passed as well
+    (the timer was armed for the idle timeout because sending is congestion-limited or hard-blocked, or the loop is late), the
+    iteration queues the PING and the timeout is declared by the next iteration, at the same instant *)
+Theorem C17_idle_after_keepalive_iteration : forall s now pto,
+  hsComplete s = true -> closeErr s = None -> decide s now pto = DKeepAlive -> nextIdle s pto <= now ->
+  closeErr (step s (EvWake now pto)) = None /\
+  closeErr (step (step s (EvWake now pto)) (EvWake now pto)) = Some {| ce_err := EIdle; ce_immediate := true |}.
+Proof. exact idle_after_keepalive_iteration. Qed.
+Print Assumptions C17_idle_after_keepalive_iteration.
 
 (** non-vacuity: a history with interleaved sends, wake-ups and answers that satisfies the hypotheses *)
 Example C17_keepalive_history_example :
@@ -447,51 +485,138 @@ Example C17_keepalive_respects_peer_regression :
 Proof. reflexivity. Qed.
 Print Assumptions C17_keepalive_respects_peer_regression.
 
-(** (c) routing entries: whatever the close, nothing is registered any more once the closing period is over
-    (and nothing at all for timeouts / destroy / stateless resets / abandoned attempts). *)
-Theorem C17_routing_released : forall client sf ampl ce elapsed expiry,
+(** (c) routing entries. [exit_routing] is this unit's summary of what handleCloseError asks of the routing table; that it
+    is 0 after the expiry holds by its definition: *)
+Theorem C17_routing_released_by_construction : forall client sf ampl ce elapsed expiry,
   (expiry <= elapsed -> exit_routing client sf ampl ce elapsed expiry = 0) /\
   (ce_immediate ce = true \/ silent_err (mapped_err ce) = true -> is_remote (mapped_err ce) = false ->
    exit_routing client sf ampl ce elapsed expiry = 0).
 Proof. exact routing_released. Qed.
-Print Assumptions C17_routing_released.
+Print Assumptions C17_routing_released_by_construction.
 
-(** a handshake that cannot even be started (StartHandshake fails) goes through the same close path: nothing is
-    sent, nothing stays registered, API objects and context get the very error Dial returns
-    (was refuted when run() returned before its loop: finding F2) *)
-Theorem C17_start_failure_released : forall client sf ampl t elapsed expiry a c,
-  exit_routing client sf ampl (start_failure (EOther t)) elapsed expiry = 0 /\
-  exit_fanout (start_failure (EOther t)) = EOther t /\ ctx_cause (start_failure (EOther t)) = EOther t /\
-  close_action client sf ampl (start_failure (EOther t)) <> ActSendClose a c.
+(** The real content — RemoveAll deletes every ID of the connection, ReplaceWithClosed maps them to the stand-in and its
+    timer deletes them at the expiry — is the C16 unit's (generator + routing-table model, tied to conn_id_generator.go /
+    transport.go by C16's correspondence): for EVERY reachable state of a connection's ID generator and routing table
+    and whatever close_action decides, after the action (and, for the two stand-in actions, once the closing period has
+    passed) the table holds nothing of the connection and no timer is pending. *)
+Module C17_routing_cites_C16.
+Import V.ConnIDs.Model V.ConnIDs.Routing V.ConnIDs.GenRoute V.ConnIDs.ProofsGenRoute.
+Definition gop_of (a : action) (ex : Z) : gop :=
+  match a with
+  | ActRemoveAll => GRemoveAll
+  | ActReplaceClosedNil => GReplaceClosed false ex
+  | ActSendClose _ _ => GReplaceClosed true ex
+  end.
+Theorem C17_routing_released : forall i cd l0 ops s client sf ampl ce ex d,
+  cd <> Some i -> gr_reach i cd l0 ops s -> 0 < ex -> ex <= d ->
+  let a := close_action client sf ampl ce in
+  let s1 := fst (gr_step (GROp (gop_of a ex)) s) in
+  let s2 := match a with ActRemoveAll => s1 | _ => fst (gr_step (GRAdvance d) s1) end in
+  rt_timers (snd s2) = [] /\ forall c, hget c (rt_handlers (snd s2)) = None.
+Proof.
+  intros i cd l0 ops s client sf ampl ce ex d Hcd Hr Hex Hd.
+  destruct (V.ConnIDs.ProofsGenRoute.gr_cleanup i cd l0 ops s Hcd Hr) as [R C].
+  cbv zeta. destruct (close_action client sf ampl ce); cbn [gop_of].
+  - exact (proj2 (C false ex d Hex Hd)).
+  - exact R.
+  - exact (proj2 (C true ex d Hex Hd)).
+Qed.
+Print Assumptions C17_routing_released.
+End C17_routing_cites_C16.
+
+(** a handshake that cannot even be started (StartHandshake or the first handleHandshakeEvents fails, with a plain error or
+    with a TLS alert as a local transport error) goes through the same close path: nothing is sent, nothing stays registered,
+    API objects and context get the very error Dial returns (was refuted when run() returned before its loop: finding F2) *)
+Theorem C17_start_failure_released : forall client sf ampl e elapsed expiry a c,
+  is_remote e = false -> e <> ENil ->
+  exit_routing client sf ampl (start_failure e) elapsed expiry = 0 /\
+  exit_fanout (start_failure e) = e /\ ctx_cause (start_failure e) = e /\
+  close_action client sf ampl (start_failure e) <> ActSendClose a c.
 Proof. exact start_failure_released. Qed.
 Print Assumptions C17_start_failure_released.
+
+(** the connection context is cancelled with the cause: for every close except the nil close, context.Cause is the same
+    error the API objects are closed with *)
+Theorem C17_context_cause_is_the_cause : forall ce, ce_err ce <> ENil -> ctx_cause ce = mapped_err ce.
+Proof. exact ctx_cause_is_mapped. Qed.
+Print Assumptions C17_context_cause_is_the_cause.
+
+(** the nil close (destroy(nil): a dial whose context is cancelled) records two different errors: context.Canceled in the
+    context, ApplicationError{} in the API objects. Accepted: the connection is never handed out (doDial returns
+    context.Cause(ctx) and no Conn), so no caller can hold both; replayed on the real code by the runloop close cases with
+    request kind 0. *)
+Theorem C17_nil_close_two_causes : forall i,
+  ctx_cause {| ce_err := ENil; ce_immediate := i |} = ECanceled /\ mapped_err {| ce_err := ENil; ce_immediate := i |} = EApp false 0.
+Proof. exact nil_close_two_causes. Qed.
+Print Assumptions C17_nil_close_two_causes.
+
+(** ** The composed connection: the recorded cause reaches every API object and every parked goroutine
+
+    Over all histories of run-loop events, API calls by any number of goroutines (a call that cannot proceed parks; a
+    parked call is a continuation that re-evaluates its wait condition when woken) and the loop's exit, starting with
+    untouched API objects: if run() has left its loop then a close error ce is recorded, every API object has been closed
+    with exactly mapped_err ce, nobody is parked, everything handed to the goroutines that were parked is that error (or the
+    object's own terminal result / a datagram queued before), a second exit changes nothing (handleCloseError runs once), and
+    every later call returns at once with such a result. Before the exit nothing has touched the API objects, and an
+    exit without a recorded close error does not happen. *)
+Theorem C17_close_reaches_every_caller : forall s0 a0 l,
+  fresh_streams a0 -> V.RunLoop.ProofsConn.calls_in_range a0 l ->
+  let k := crun (conn_init s0 a0) l in
+  (k_exited k = false -> k_api k = a0 /\ k_returned k = []) /\
+  (k_exited k = true -> exists ce,
+     closeErr (k_st k) = Some ce /\ k_api k = fanout a0 (mapped_err ce) /\ k_parked k = [] /\
+     Forall (V.RunLoop.ProofsConn.good_result (mapped_err ce) (a_rcvQueued a0)) (k_returned k) /\
+     fst (cstep k CExit) = k /\
+     forall c, call_in_range a0 c -> exists r, cstep k (CCall c) = (k, Some r) /\
+                                               V.RunLoop.ProofsConn.good_result (mapped_err ce) (a_rcvQueued a0) (c, r)).
+Proof. exact V.RunLoop.ProofsConn.close_reaches_every_caller. Qed.
+Print Assumptions C17_close_reaches_every_caller.
+
+Theorem C17_exit_needs_cause : forall k, closeErr (k_st k) = None -> fst (cstep k CExit) = k.
+Proof. exact V.RunLoop.ProofsConn.exit_needs_cause. Qed.
+Print Assumptions C17_exit_needs_cause.
+
+(** non-vacuity: three goroutines park in AcceptStream, one in Read, one in ReceiveDatagram; the application closes; the
+    loop exits: all five are handed the application error, nobody is parked *)
+Example C17_close_reaches_every_caller_example :
+  let a0 := V.RunLoop.SimRun.sim_api in
+  let ce := {| ce_err := EApp false 7; ce_immediate := false |} in
+  let k := crun (conn_init (init ex_cfg_early 1000) a0)
+                [CCall CAcceptStream; CCall CAcceptStream; CCall (CRead 0); CCall CAcceptStream; CCall CReceiveDatagram;
+                 CLoop (EvClose ce); CLoop (EvClose {| ce_err := EIdle; ce_immediate := true |}); CExit; CExit] in
+  k_exited k = true /\ k_parked k = [] /\
+  k_returned k = [(CAcceptStream, RErr (EApp false 7)); (CAcceptStream, RErr (EApp false 7)); (CRead 0, RErr (EApp false 7));
+                  (CAcceptStream, RErr (EApp false 7)); (CReceiveDatagram, RErr (EApp false 7))].
+Proof. vm_compute. repeat split; reflexivity. Qed.
+Print Assumptions C17_close_reaches_every_caller_example.
 
 (** ** The simulated connections (simclose unit)
 
     Every scenario of the simclose unit — a real client and a real server over the simulated network, ended by one
     of its causes with calls parked on both sides — logs per side the recorded cause and whether the close was
-    immediate (both read from Conn.closeErr), and the replay [SimRun.check_side] compares the model's predictions
+    immediate (both read from Conn.closeErr), sentFirstPacket and handshakeComplete, and the replay [SimRun.check_side] compares the model's predictions
     with what the API calls returned, what the router saw and what the transports' routing tables hold. For every side the
     replay accepts: *)
 Theorem C17_simulated_side : forall s, V.RunLoop.SimRun.check_side s = true ->
+  let ce := {| ce_err := V.RunLoop.Run.errk_of (V.RunLoop.SimRun.sd_cause s); ce_immediate := V.RunLoop.SimRun.sd_immediate s |} in
+  let frame := (let '(isApp, code) := close_frame (mapped_err ce) in (if isApp then 3 else 4, code)) in
+  V.RunLoop.SimRun.sd_hs s = true /\
   Forall (fun kc => snd kc = 0) (V.RunLoop.SimRun.sd_parked s ++ V.RunLoop.SimRun.sd_later s) /\
   V.RunLoop.SimRun.sd_routing s = 0 /\
   (V.RunLoop.SimRun.sd_sent s = true <->
      is_remote (V.RunLoop.Run.errk_of (V.RunLoop.SimRun.sd_cause s)) = false /\ V.RunLoop.SimRun.sd_immediate s = false /\
      silent_err (V.RunLoop.Run.errk_of (V.RunLoop.SimRun.sd_cause s)) = false /\
-     (exists isApp code, close_frame (mapped_err {| ce_err := V.RunLoop.Run.errk_of (V.RunLoop.SimRun.sd_cause s);
-                                                      ce_immediate := V.RunLoop.SimRun.sd_immediate s |}) = (isApp, code))) /\
-  (forall p, V.RunLoop.SimRun.sd_peer s = Some p -> V.RunLoop.SimRun.sd_sent s = true /\
-     p = (let '(isApp, code) := close_frame (mapped_err {| ce_err := V.RunLoop.Run.errk_of (V.RunLoop.SimRun.sd_cause s);
-                                                            ce_immediate := V.RunLoop.SimRun.sd_immediate s |}) in
-          (if isApp then 3 else 4, code))).
+     (V.RunLoop.SimRun.sd_client s = false \/ V.RunLoop.SimRun.sd_sentFirst s = true)) /\
+  (V.RunLoop.SimRun.sd_delivered s = true -> V.RunLoop.SimRun.sd_sent s = true /\ V.RunLoop.SimRun.sd_peer s = Some frame) /\
+  (forall p, V.RunLoop.SimRun.sd_peer s = Some p -> V.RunLoop.SimRun.sd_sent s = true /\ p = frame).
 Proof. exact V.RunLoop.ProofsSim.accepted_side. Qed.
 Print Assumptions C17_simulated_side.
 
-(** non-vacuity: an observation as logged by a client that closed with application error 52 *)
+(** non-vacuity: an observation as logged by a client that closed with application error 52, a copy of the frame delivered *)
 Example C17_simulated_side_example :
-  V.RunLoop.SimRun.check_side (V.RunLoop.SimRun.mkSide true (1, 52) false true [(0, 0); (2, 0); (6, 0)] [(8, 0); (7, 0); (1, 0)] 0 (Some (3, 52))) = true.
-Proof. reflexivity. Qed.
+  V.RunLoop.SimRun.check_side (V.RunLoop.SimRun.mkSide true (1, 52) false true true true [(0, 0); (2, 0); (6, 0)] [(8, 0); (7, 0); (1, 0)] 0 true (Some (3, 52))) = true /\
+  V.RunLoop.SimRun.check_side (V.RunLoop.SimRun.mkSide true (1, 52) false true true true [] [] 0 true None) = false.
+Proof. split; reflexivity. Qed.
 Print Assumptions C17_simulated_side_example.
 
 (** ** Non-vacuity *)
@@ -511,7 +636,7 @@ Print Assumptions C17_idle_reachable.
 (** keep-alive rounds exist: PING 4000 after the last packet, answered 100 later, twice, with wake-ups in between *)
 Example C17_keepalive_rounds_exist :
   let s := step ex_s (EvRecv 2000) in
-  let rs := [ {| rd_pto := 100; rd_wakes := [(6050, 100); (6100, 7)]; rd_recv := 6100 |};
+  let rs := [ {| rd_pto := 100; rd_wakes := [(6050, 100); (6100, 100)]; rd_recv := 6100 |};
               {| rd_pto := 120; rd_wakes := []; rd_recv := 15000 |} ] in
   ka_state s /\ rounds_ok s rs /\ lastRecv (run_rounds s rs) = 15000.
 Proof.
